@@ -12,6 +12,7 @@ CONSTANTS
   RecvApis = {"complete", "startread", "typed"}
   WriteSizes = {0, 1, 4095, 4096, 4097, 16383, 16384, 16385, 1048543, 1048544, 1048545, 1048559, 1048560, 1048561, 1048575, 1048576, 1048577, 2097157}
   StrSizes = {0, 16375, 1048534, 1048535, 1048536, 1048567, 1048576}
+  StrBytesSizes = {}
   ReadSizes = {0}
   MaxMsgs = 2
   MaxWrites = 1
